@@ -1031,8 +1031,12 @@ func (r *resolver) expandAugment(y *Augment, parent Meta) error {
 	}
 
 	for _, orig := range y.Actions() {
+		hasActions, valid := target.(HasActions)
+		if !valid {
+			return fmt.Errorf("%s - a %T cannot be augmented with the action %s", SchemaPath(y), target, orig.Ident())
+		}
 		d := orig.clone(target).(Definition)
-		if err := target.(HasActions).addAction(d.(*Rpc)); err != nil {
+		if err := hasActions.addAction(d.(*Rpc)); err != nil {
 			return err
 		}
 		if _, err := r.enter(d); err != nil {
@@ -1041,8 +1045,12 @@ func (r *resolver) expandAugment(y *Augment, parent Meta) error {
 	}
 
 	for _, orig := range y.Notifications() {
+		hasNotifs, valid := target.(HasNotifications)
+		if !valid {
+			return fmt.Errorf("%s - a %T cannot be augmented with the notification %s", SchemaPath(y), target, orig.Ident())
+		}
 		d := orig.clone(target).(Definition)
-		if err := target.(HasNotifications).addNotification(d.(*Notification)); err != nil {
+		if err := hasNotifs.addNotification(d.(*Notification)); err != nil {
 			return err
 		}
 		if _, err := r.enter(d); err != nil {
